@@ -95,9 +95,14 @@ class TLCResult:
         return [l for l in self.out.splitlines()]
 
 
+TLA_CP = "/opt/veriftools/tla/tla2tools.jar:/opt/veriftools/tla/CommunityModules-deps.jar"
+
+
 def tlc(cwd, module, cfg=None, workers=None, timeout=600, extra=(), javaopts=None, deadlock=None):
     meta = tempfile.mkdtemp(prefix="meta-", dir=cwd)
-    cmd = ["tlc", "-metadir", meta, "-noGenerateSpecTE", "-workers", str(workers or min(NCPU, 14))]
+    # same command line as the pre-installed `tlc` wrapper, plus a larger thread stack: the parser overflows the default one on large
+    # generated divider tables, and the launcher takes -Xss for the main thread only from the command line
+    cmd = ["java", "-Xss512m", "-XX:+UseParallelGC", "-cp", TLA_CP, "tlc2.TLC", "-metadir", meta, "-noGenerateSpecTE", "-workers", str(workers or min(NCPU, 14))]
     if cfg:
         cmd += ["-config", cfg]
     if deadlock is False:
@@ -106,7 +111,8 @@ def tlc(cwd, module, cfg=None, workers=None, timeout=600, extra=(), javaopts=Non
     env = {}
     jtmp = os.path.join(cwd, "jtmp")
     os.makedirs(jtmp, exist_ok=True)
-    env["JAVA_TOOL_OPTIONS"] = ((javaopts + " ") if javaopts else "") + "-Djava.io.tmpdir=" + jtmp   # TLC litters java.io.tmpdir
+    # TLC litters java.io.tmpdir
+    env["JAVA_TOOL_OPTIONS"] = ((javaopts + " ") if javaopts else "") + "-Djava.io.tmpdir=" + jtmp
     rc, out, wall = run(cmd, cwd=cwd, env=env, timeout=timeout)
     shutil.rmtree(meta, ignore_errors=True)
     return TLCResult(rc, out, wall)
